@@ -3,6 +3,10 @@
 (*  - Small : small integer LPs (n <= 3, boxed) whose feasibility and optimum TLC decides exactly (LinProg.tla);                  *)
 (*  - Kkt   : LPs / convex QPs with an optimum fixed by KKT construction; planted infeasible / unbounded programs;               *)
 (*  - Pair  : equivalent restatements of one program (metamorphic).                                                              *)
+(*  - Blocks: one program stated in one block and as several constraint blocks (make_less / make_greater / rows / matrices) in a   *)
+(*            shuffled argument order.                                                                                            *)
+(* Kkt records with m = 0 are programs without inequalities (the solver's direct KKT solve); label "interior" is a run from a      *)
+(* generic strictly interior user start off the equalities.                                                                       *)
 (* Tolerance comparisons on real data are the driver's (booleans); the status protocol and the exact small programs are TLC's.    *)
 EXTENDS LinProg, Json, IOUtils
 TraceLog == ndJsonDeserialize(IOEnv.TRACE)
@@ -20,13 +24,17 @@ Small == /\ Is("Small") /\ l' = l + 1 /\ Ev.status \in Statuses
                      /\ Abs(Ev.fx1000 * ObjDen(Ev.G, R) - 1000 * ObjNum(Ev.c, Ev.G, Ev.h, R)) <= 2 * ObjDen(Ev.G, R)   \* optimum within 2e-3 (exact arithmetic)
                      /\ Ev.feasOK /\ Ev.objOK /\ Ev.gapOK                                     \* the property's tolerances (driver, exact rational optimum)
 Kkt == /\ Is("Kkt") /\ l' = l + 1 /\ Ev.status \in Statuses
-       /\ (Ev.label = "optimal" => (Ev.status = "converged" => (Ev.eqOK /\ Ev.ineqOK /\ Ev.objOK /\ Ev.gapOK)))
+       /\ (Ev.label \in {"optimal", "interior"} => (Ev.status = "converged" => (Ev.eqOK /\ Ev.ineqOK /\ Ev.objOK /\ Ev.gapOK)))
        /\ (Ev.label \in {"infeasible", "unbounded"} => Ev.status # "converged")
        /\ (Ev.label = "badstart" => (Ev.status = "unfeasible" /\ Ev.iters = 0))              \* start not strictly feasible
 Pair == /\ Is("Pair") /\ l' = l + 1 /\ Ev.statusA \in Statuses /\ Ev.statusB \in Statuses
         /\ ((Ev.statusA = "converged" /\ Ev.statusB = "converged") => Ev.agree)
         /\ (Ev.statusB = "converged" => Ev.okB)                                               \* the restated program's own clauses
-Next == Small \/ Kkt \/ Pair
+Blocks == /\ Is("Blocks") /\ l' = l + 1 /\ Ev.statusA \in Statuses /\ Ev.statusB \in Statuses
+          /\ Ev.stackOK                                                                      \* the stated program has exactly the caller's rows
+          /\ ((Ev.statusA = "converged" /\ Ev.statusB = "converged") => Ev.agree)
+          /\ (Ev.statusB = "converged" => Ev.okB)                                             \* the clauses on the program stated in blocks
+Next == Small \/ Kkt \/ Pair \/ Blocks
 Init == l = 1
 Spec == Init /\ [][Next]_l
 Accepted == LET d == TLCGet("stats").diameter IN
